@@ -187,7 +187,7 @@ fn render_op(t: &[String]) -> Option<String> {
 
 fn snap(tag: &str) -> String {
     format!(
-        "echo @{tag}\ntypeset -p\necho @f\ntypeset -fp\necho @a\nalias\necho @o\nset +o\necho @u\numask\n\
+        "echo @{tag}\ntypeset -gp\necho @f\ntypeset -fp\necho @a\nalias\necho @o\nset +o\necho @u\numask\n\
          echo @t\ntrap\necho @p\nprobe P \"$@\"\necho @s\nsysprobe\necho @."
     )
 }
@@ -216,6 +216,15 @@ fn render(c: &Case, control: bool) -> String {
     for (i, k) in c.kinds.iter().enumerate().rev() {
         let during = if i == 0 { ops(&c.during) } else { String::new() };
         body = format!("{}\nprobe ST", wrap(k, &body, &during));
+    }
+    if c.in_fn && c.kinds.iter().any(|k| k == "subst") {
+        // `typeset -fp` prints a command substitution verbatim: keep the body of `mainf` free of newlines
+        // inside `$( )` so that the function listing stays one line per function
+        body = body
+            .replace('\n', "; ")
+            .replace("{; ", "{ ")
+            .replace("(; ", "( ")
+            .replace("&; ", "& ");
     }
     let prog = format!("{}{}\n{}\n{}", ops(&c.pro), snap("B"), body, snap("A"));
     if c.in_fn {
@@ -855,6 +864,8 @@ struct Abs {
     readonly: Vec<String>,
     nparams: usize,
     open: Vec<String>,
+    /// fds opened read-only
+    ronly: Vec<String>,
     /// condition -> 'd' | 'i' | 'c'
     traps: BTreeMap<String, char>,
 }
@@ -922,12 +933,15 @@ fn gen_op(rng: &mut Rng, abs: &mut Abs, fam: usize, phase: char) -> Option<Strin
             match rng.below(4) {
                 0 => {
                     abs.open.retain(|x| x != fd);
+                    abs.ronly.retain(|x| x != fd);
                     format!("fdc {fd}")
                 }
                 1 => {
                     let mut src: Vec<&str> = vec!["1", "2"];
-                    src.extend(abs.open.iter().map(|s| s.as_str()).filter(|s| *s != fd));
+                    // `N>&M` needs a writable M (an fd opened by `fdr` is read-only: redirection error)
+                    src.extend(abs.open.iter().map(|s| s.as_str()).filter(|s| *s != fd && !abs.ronly.iter().any(|r| r == s)));
                     let m = src[rng.below(src.len())].to_string();
+                    abs.ronly.retain(|x| x != fd);
                     if !abs.open.iter().any(|x| x == fd) {
                         abs.open.push(fd.to_string());
                     }
@@ -937,9 +951,13 @@ fn gen_op(rng: &mut Rng, abs: &mut Abs, fam: usize, phase: char) -> Option<Strin
                     if !abs.open.iter().any(|x| x == fd) {
                         abs.open.push(fd.to_string());
                     }
+                    if !abs.ronly.iter().any(|x| x == fd) {
+                        abs.ronly.push(fd.to_string());
+                    }
                     format!("fdr {fd}")
                 }
                 _ => {
+                    abs.ronly.retain(|x| x != fd);
                     if !abs.open.iter().any(|x| x == fd) {
                         abs.open.push(fd.to_string());
                     }
@@ -1026,6 +1044,19 @@ fn gen_case(rng: &mut Rng, pro_fams: &[usize], kinds: &[&str], child_fams: &[usi
 
 const NFAM: usize = 15;
 
+/// A mutator family for the prologue. `cd` and `umask` in the prologue expose the known defect of
+/// `Process::fork_from` (child does not inherit cwd/umask), which masks everything else in the case, so
+/// they are drawn less often there (they stay fully weighted in the child and during-`&` positions).
+fn pro_fam(rng: &mut Rng) -> usize {
+    loop {
+        let f = rng.below(NFAM);
+        if (f == 10 || f == 11) && !rng.chance(1, 5) {
+            continue;
+        }
+        return f;
+    }
+}
+
 fn main() {
     quiet_panics();
     let o = Opts::from_args();
@@ -1073,12 +1104,12 @@ fn main() {
     for rep in 0..reps {
         for fam in 0..NFAM {
             for k in KINDS.iter() {
-                let pro: Vec<usize> = (0..(1 + rng.below(4))).map(|_| rng.below(NFAM)).collect();
+                let pro: Vec<usize> = (0..(1 + rng.below(4))).map(|_| pro_fam(&mut rng)).collect();
                 let during: Vec<usize> = if rng.chance(1, 2) { vec![rng.below(NFAM)] } else { vec![] };
                 cases.push(gen_case(&mut rng, &pro, &[k], &[fam], &during, rep % 2 == 1, false));
             }
             for (k1, k2) in depth2.iter() {
-                let pro: Vec<usize> = (0..(1 + rng.below(4))).map(|_| rng.below(NFAM)).collect();
+                let pro: Vec<usize> = (0..(1 + rng.below(4))).map(|_| pro_fam(&mut rng)).collect();
                 cases.push(gen_case(&mut rng, &pro, &[k1, k2], &[fam], &[], rep % 2 == 1, false));
             }
         }
@@ -1088,7 +1119,7 @@ fn main() {
     for _ in 0..n {
         let np = rng.below(7);
         let nc = 1 + rng.below(5);
-        let pro: Vec<usize> = (0..np).map(|_| rng.below(NFAM)).collect();
+        let pro: Vec<usize> = (0..np).map(|_| pro_fam(&mut rng)).collect();
         let child: Vec<usize> = (0..nc).map(|_| rng.below(NFAM)).collect();
         let nd = rng.below(3);
         let during: Vec<usize> = (0..nd).map(|_| rng.below(NFAM)).collect();
